@@ -596,6 +596,24 @@ namespace straightener {
         }
     }
 
+    bool Cluster::orderLessThan(const Cluster *lhs, const Cluster *rhs)
+    {
+        if (lhs == rhs) {
+            return false;
+        }
+        if (lhs == nullptr || rhs == nullptr) {
+            // No cluster (top-level membership) orders first.
+            return (lhs == nullptr);
+        }
+        const std::set<unsigned>& lhsNodes = lhs->colaCluster->nodes;
+        const std::set<unsigned>& rhsNodes = rhs->colaCluster->nodes;
+        if (!lhsNodes.empty() && !rhsNodes.empty() &&
+                (*lhsNodes.begin() != *rhsNodes.begin())) {
+            return *lhsNodes.begin() < *rhsNodes.begin();
+        }
+        return lhs < rhs;
+    }
+
     void Cluster::updateActualBoundary()
     {
         unsigned n=0;
